@@ -33,6 +33,7 @@ type ObGroup struct {
 	RawOut  string
 	SMTSize int
 	Script  string
+	Candidate bool // Model comes from the quantifier-weakened query (a candidate input, to be confirmed by replay)
 }
 
 func groupObligations(obs []*Obligation) []*ObGroup {
@@ -111,11 +112,11 @@ func (g *ObGroup) query() *Term {
 		if g.Canary {
 			// reachability canaries use the quantifier-free part of the path condition: a contradiction there is
 			// what a vacuous contract looks like, and satisfiability of quantified facts is not decidable in time
+			// (quantified subformulas are weakened away polarity-wise, so disjunctions from merged paths keep their
+			// quantifier-free parts)
 			var qf []*Term
 			for _, f := range o.PC {
-				if !hasQuant(f) {
-					qf = append(qf, f)
-				}
+				qf = append(qf, weakenQuant(f, true))
 			}
 			ds = append(ds, And(qf...))
 			continue
@@ -123,6 +124,45 @@ func (g *ObGroup) query() *Term {
 		ds = append(ds, And(append(append([]*Term(nil), o.PC...), Not(o.Claim))...))
 	}
 	return Or(ds...)
+}
+
+// weakenQuant returns a quantifier-free formula implied by t (pol=true) or implying t (pol=false): quantified
+// subformulas become true in positive and false in negative positions.
+func weakenQuant(t *Term, pol bool) *Term {
+	if !hasQuant(t) {
+		return t
+	}
+	give := func() *Term {
+		if pol {
+			return True()
+		}
+		return False()
+	}
+	switch t.Op {
+	case "forall", "exists":
+		return give()
+	case "not":
+		return Not(weakenQuant(t.Args[0], !pol))
+	case "and":
+		var as []*Term
+		for _, a := range t.Args {
+			as = append(as, weakenQuant(a, pol))
+		}
+		return And(as...)
+	case "or":
+		var as []*Term
+		for _, a := range t.Args {
+			as = append(as, weakenQuant(a, pol))
+		}
+		return Or(as...)
+	case "=>":
+		return Implies(weakenQuant(t.Args[0], !pol), weakenQuant(t.Args[1], pol))
+	case "ite":
+		if t.Sort == BoolSort && !hasQuant(t.Args[0]) {
+			return Ite(t.Args[0], weakenQuant(t.Args[1], pol), weakenQuant(t.Args[2], pol))
+		}
+	}
+	return give()
 }
 
 type DischargeOpts struct {
@@ -265,10 +305,35 @@ func discharge(groups []*ObGroup, opt DischargeOpts) {
 					}
 				}
 			}
+			var cand map[string]string
+			var candOut string
+			if r.Status != "unsat" && r.Status != "sat" && !j.g.Canary && j.q != nil && hasQuant(j.q) {
+				// undecided with quantifiers: look for a CANDIDATE input in the quantifier-weakened query (only a replay
+				// on the real code can turn it into a counterexample)
+				mu.Lock()
+				wq := weakenQuant(j.q, true)
+				b := replayBounds(j.g)
+				var sc2 string
+				if b != nil {
+					sc2 = Script([]*Term{wq, b}, j.gv, "", TS.Defs)
+				} else {
+					sc2 = Script([]*Term{wq}, j.gv, "", TS.Defs)
+				}
+				mu.Unlock()
+				r2 := Solve(sc2, 10*time.Second, opt.Seed, fmt.Sprintf("q%dw", i), false)
+				if r2.Status == "sat" {
+					cand = parseModel(r2.Output, j.gv)
+					candOut = r2.Output
+				}
+			}
 			if j.sub > 0 {
 				mu.Lock()
 				defer mu.Unlock()
 				g := j.g
+				if cand != nil && g.Status != "failed" && g.Model == nil {
+					g.Model, g.Candidate = cand, true
+					_ = candOut
+				}
 				g.Secs += r.Secs
 				g.Tried = append(g.Tried, r.Tried...)
 				switch r.Status {
@@ -322,6 +387,9 @@ func discharge(groups []*ObGroup, opt DischargeOpts) {
 					j.g.Status = "unknown"
 					j.g.RawOut = r.Output
 					j.g.Script = j.script
+					if cand != nil {
+						j.g.Model, j.g.Candidate, j.g.RawOut = cand, true, candOut
+					}
 				}
 			}
 		}(i, j)
@@ -473,23 +541,28 @@ func sortedKeys(m map[string]string) []string {
 	return ks
 }
 
+var hasQuantCache = map[int]bool{}
+var hasQuantMu sync.Mutex
+
 func hasQuant(t *Term) bool {
-	seen := map[int]bool{}
+	hasQuantMu.Lock()
+	defer hasQuantMu.Unlock()
 	var rec func(t *Term) bool
 	rec = func(t *Term) bool {
-		if seen[t.id] {
-			return false
+		if v, ok := hasQuantCache[t.id]; ok {
+			return v
 		}
-		seen[t.id] = true
-		if t.Op == "forall" || t.Op == "exists" {
-			return true
-		}
-		for _, a := range t.Args {
-			if rec(a) {
-				return true
+		r := t.Op == "forall" || t.Op == "exists"
+		if !r {
+			for _, a := range t.Args {
+				if rec(a) {
+					r = true
+					break
+				}
 			}
 		}
-		return false
+		hasQuantCache[t.id] = r
+		return r
 	}
 	return rec(t)
 }
